@@ -144,6 +144,21 @@ func runAll(c *run.Ctx) {
 			}
 		}
 	}
+	for i := 0; i < c.N(2000, 40000); i++ {
+		c.Case("grid", i, func(k *run.K) {
+			domain := gen.DSmall
+			g := &gen.G{R: k.Rng, Cfg: gen.NewCfg(k.Rng, domain)}
+			a := g.GridTyped(gen.AllTypes[k.Rng.Intn(7)])
+			b := g.GridTyped(gen.AllTypes[k.Rng.Intn(7)])
+			if k.Rng.Chance(1, 3) {
+				b = translate(b, float64(g.Cfg.Side+k.Rng.Range(0, 2)), float64(k.Rng.Range(-1, 1)))
+			}
+			k.In("domain", domain)
+			k.In("a", shared.WKT(a))
+			k.In("b", shared.WKT(b))
+			Pair(k, domain, a, b)
+		})
+	}
 	// clustered members: the nearest feature sits in a late-visited node
 	for i := 0; i < c.N(600, 15000); i++ {
 		c.Case("clustered", i, func(k *run.K) {
